@@ -155,9 +155,12 @@ def fam(prop):
                 # which TLC loads as a whole, below ~60 MB)
                 # C06 also judges its order-insensitive clause (a re-requested key stays present) on controlled
                 # interleavings where timer callbacks are separate steps (mode m1)
-                modes={"quick": ([("m1x", "m1", 3000), ("rcburst", "rcburst", 2500, 4)] if seq else []),
+                # C07: "ctxc" = small alphabets around a context that the application cancels in place while an
+                # instance is slow to return
+                modes={"quick": ([("m1x", "m1", 3000), ("rcburst", "rcburst", 2500, 4)] if seq else [("ctxc", "m1,ctxc", 8000)]),
                        "thorough": [("r%d" % i, ("seq" if seq else "m1") + ",v%d" % i, 10000) for i in range(1, 9)]
-                                   + ([("m1x%d" % i, "m1,v%d" % i, 10000) for i in range(1, 5)] + [("rcburst", "rcburst", 60000, 4)] if seq else [])},
+                                   + ([("m1x%d" % i, "m1,v%d" % i, 10000) for i in range(1, 5)] + [("rcburst", "rcburst", 60000, 4)] if seq
+                                      else [("ctxc", "m1,ctxc", 30000)])},
                 x_specs=["keyed/Keyed.tla"], p_monitor="keyed/KeyedP.tla",
                 assumptions=["KeyedP encodes the statement (interpretation notes at the top of specs/keyed/KeyedP.tla)",
                              "X models the code as it is at the pinned commit: " + ", ".join("%s=%s" % kv for kv in sorted(FIXES.items()))])
